@@ -56,7 +56,10 @@ fn owns_c08(op: &Op) -> bool {
     matches!(op, Op::Sgr(_))
 }
 fn owns_c12(op: &Op) -> bool {
-    matches!(op, Op::SetMode(..) | Op::ResetMode(..))
+    // "IRM, LNM and DECAWM govern insertion, newline and autowrap": Draw where the mode set
+    // decides the outcome (insert mode, or the text reaches the right edge) and Linefeed under
+    // LNM, decided per step; whatever last changed the mode set (SM/RM, DECRC, RIS)
+    matches!(op, Op::SetMode(..) | Op::ResetMode(..) | Op::Draw(_) | Op::Linefeed)
 }
 fn owns_c13(op: &Op) -> bool {
     // Draw: only in insert mode, where it performs an implicit ICH (decided per step)
@@ -158,7 +161,7 @@ pub const STEP_PROPS: &[StepProp] = &[
         id: "C12",
         focus: &[Focus::Modes],
         owns: owns_c12,
-        rule: "one case = one seeded wiring-Q run; SM/RM with mode numbers 0..=9999 x {private, ANSI}, lists of 1-3, repeated set/set and reset/reset, both Operator spellings, interleaved with DECSC/DECRC, resizes and drawing; judged by step relations SM/RM (mode set plus per-mode cursor, geometry, cells, rendition, hidden flag); reach_sets report distinct mode keys hit",
+        rule: "one case = one seeded wiring-Q run; SM/RM with mode numbers 0..=9999 x {private, ANSI}, lists of 1-3, repeated set/set and reset/reset, both Operator spellings, interleaved with DECSC/DECRC, resizes and drawing; judged by step relations SM/RM (mode set plus per-mode cursor, geometry, cells, rendition, hidden flag), by DRAW wherever IRM is set or the text reaches the right edge (the outcome must follow the mode set as it stands, whoever changed it last) and by LINEFEED under LNM; reach_sets report distinct mode keys hit",
         quick_runs: 400_000,
         thorough_runs: 10_000_000,
         tune: no_tune,
@@ -610,6 +613,10 @@ impl<'a> Observer for StepObs<'a> {
             if self.sp.id == "C13" {
                 return screen.mode.contains(&memterm::modes::IRM);
             }
+            if self.sp.id == "C12" {
+                return screen.mode.contains(&memterm::modes::IRM)
+                    || screen.cursor.x as u64 + 2 * t.chars().count() as u64 >= screen.columns as u64;
+            }
             if self.sp.id == "C06" {
                 let bottom = screen.margins.map(|m| m.bottom).unwrap_or(screen.lines.saturating_sub(1));
                 let reach = screen.cursor.x as u64 + 2 * t.chars().count() as u64;
@@ -618,6 +625,9 @@ impl<'a> Observer for StepObs<'a> {
                     && screen.cursor.y <= bottom
                     && screen.cursor.y as u64 + reach / (screen.columns.max(1) as u64) >= bottom as u64;
             }
+        }
+        if self.sp.id == "C12" && matches!(low, Op::Linefeed) {
+            return screen.mode.contains(&memterm::modes::LNM);
         }
         true
     }
@@ -705,6 +715,25 @@ impl<'a> Observer for StepObs<'a> {
                     return Ok(());
                 }
                 self.cov.hit("probe_insert_mode_draw_judged");
+            }
+        }
+        // C12 owns draw where the mode set decides the outcome, and LF under LNM
+        if self.sp.id == "C12" {
+            match &low {
+                Op::Draw(t) => {
+                    let p = ctx.pre;
+                    if !(p.has(memterm::modes::IRM) || p.x as u64 + 2 * t.chars().count() as u64 >= p.columns as u64) {
+                        return Ok(());
+                    }
+                    self.cov.hit("probe_mode_governed_draw_judged");
+                }
+                Op::Linefeed => {
+                    if !ctx.pre.has(memterm::modes::LNM) {
+                        return Ok(());
+                    }
+                    self.cov.hit("probe_lnm_linefeed_judged");
+                }
+                _ => {}
             }
         }
         // C06 owns draw only where it scrolls (autowrap at the bottom margin)
